@@ -4,6 +4,12 @@ NOTES = ("All checks: bin/check <ID> --tier quick|thorough. Exit 0 held / 1 VIOL
          "Specification in spec/, harness in harness/, known findings in known_findings.jsonl; see DESIGN.md.")
 NOT_APPLICABLE = {}
 CHECKS = {
+    "C12": {
+        "level": "model_checking",
+        "technique": "TLA+ ModuleGraph spec (visibility through show/hide/prefix, privacy, once-only loading and load order, shared module variables, with-configuration rules, named deviation switch); TLC enumerates all edge decorations x probes of a three-file project (MC_Modules); grass compiles each over an in-memory Fs; TLC trace machine Trace_Modules judges probe value/error, marker order and load log",
+        "text": "Exhaustive over the decoration space of entry->m1, m1->m2, entry->m2 (namespace/as */with, @use or @forward with show/hide/as prefix/with, diamond loads in both orders, URL spellings) x 13 probes (public/private reads, forwarded members, namespace assignment seen through another path, un-namespaced access). Every compilation must produce exactly the value or error, the once-only marker rules in load order and the once-only load messages that the specification computes.",
+        "note": "Projects have three files; cycles, built-in module aliases and deeper graphs are not generated. Two combinations are left open (not generated) because the reference behaviour could not be established offline: pass-through configuration of an already loaded module, and show/hide + prefix + pass-through configuration.",
+    },
     "C13": {
         "level": "model_checking",
         "technique": "TLA+ ImportSearch spec (priority classes per location, relative location then load paths, import-only variants, index directories, extension appended); TLC checks resolution soundness/decoy inertness on the model and enumerates virtual layouts; grass runs each over a recording in-memory Fs in a working directory seeded with real-disk decoys; TLC trace machine Trace_Imports judges every Fs call (confinement) and the loaded file/syntax/error",
